@@ -89,7 +89,8 @@ def _output_name(i: int, nested_funcs: list[list[PipeFunc]], all_inputs: set[str
 
 
 def _sort(funcs: Iterable[PipeFunc]) -> list[PipeFunc]:
-    return sorted(funcs, key=lambda f: f.output_name)
+    # `output_name` is a `str` or a `tuple[str, ...]`, which cannot be compared with each other
+    return sorted(funcs, key=lambda f: at_least_tuple(f.output_name))
 
 
 def _flatten_dict(d: dict[PipeFunc, list[PipeFunc]]) -> list[PipeFunc]:
